@@ -12,7 +12,7 @@ SimInit == Init /\ hist = <<>> /\ printed = FALSE
 \* \E over singletons binds each random draw once, so that one step costs one evaluation (every step is a Next step)
 SimStep ==
     \E c \in {RandomElement(CtxSet)}, kd \in {RandomElement(1..11)}, s \in {RandomElement(Scripts)}, S \in {RandomElement(OnSeqs)},
-       e \in {RandomElement(ClassExprs)}, k \in {RandomElement(Classes)}, h \in {RandomElement(BlockHandles)},
+       e \in {RandomElement(ClassExprs)}, k \in {RandomElement(Classes)}, h \in {RandomElement(BlockHandles \cup ZeroHandles)},
        g \in {RandomElement(FixedHandles)} :
         IF kd = 1 THEN RenderScriptComponent(c, s)
         ELSE IF kd = 2 THEN ElementWithOnAttrs(c, S)
